@@ -48,6 +48,10 @@ def classify(fn, n):
             return "D", a[0], a[1:]
         if cal.endswith("RuleLocal::evalSupport"):
             return "V", None, a[1:3]
+        if cal.endswith("RuleLocal::evalRaw"):
+            return "V", None, a[1:3]
+        if cal.endswith("RuleWavelet::getWeight"):
+            return "W", None, a[0:1]
         if cal.endswith("RuleLocal::diffSupport"):
             return "D", None, a[1:3]
         if cal.endswith("RuleWavelet::eval") and n.get("targs") in ("0", "1"):
@@ -70,6 +74,8 @@ def make_hook(fn):
         return None
 
     def hook(n, ev):
+        if n.get("k") == "DeclRefExpr" and n.get("var") in ("isSupported", "isDimSupported"):
+            return sympy.true          # fold the path on which every factor is supported
         c = classify(fn, n)
         if c is None:
             return None
@@ -83,7 +89,7 @@ def make_hook(fn):
         else:
             kk = tags[0] if tags else None
         tag = tags[0] if tags and all(t == tags[0] for t in tags) else "mixed%s" % tags
-        return sympy.Symbol("%s_%s_%s" % (kind, kk, tag), real=True)
+        return sympy.Symbol("%s_%s_%s" % (kind, kk, tag), real=True, nonzero=True)
     return hook
 
 
@@ -136,14 +142,56 @@ def product_rule(chk, db, rule_id, fn, dims=(1, 2, 3, 4)):
         arr = env.get(did, {})
         if problem is None:
             for j in range(d):
-                want = sympy.Symbol("D_%d_%d" % (j, j), real=True)
+                want = sympy.Symbol("D_%d_%d" % (j, j), real=True, nonzero=True)
                 for k in range(d):
                     if k != j:
-                        want = want * sympy.Symbol("V_%d_%d" % (k, k), real=True)
+                        want = want * sympy.Symbol("V_%d_%d" % (k, k), real=True, nonzero=True)
                 got = arr.get(j)
                 if got is None or sympy.expand(got - want) != 0:
                     problem = "num_dimensions = %d: component %d is %s, the product rule gives %s" % (d, j, got, want)
                     break
         n += 1
         chk.ob(rule_id, fn.key + fn.sig, "product rule for num_dimensions = %d" % d, problem is None, fn.where, problem or "", "diff[j] = D_j * prod_{k != j} V_k, every factor addressed with its own dimension")
+    return n
+
+
+def value_rule(chk, db, rule_id, fn, kind="V", dims=(1, 2, 3, 4)):
+    """tensor-product value: a function returning double (or a scalar local accumulated before use) equals prod_k <kind>_k,
+    every factor addressed with its own dimension"""
+    nd_field = next((q["field"] for q in fn.walk() if q.get("k") == "MemberExpr" and short(q.get("field") or "") == "num_dimensions"), None)
+    returns_value = (fn.d.get("ret") or "").strip() == "double"
+    n = 0
+    chk.saw(fn)
+    for d in dims:
+        pe = ArrayPEval(db, hook=make_hook(fn), members={nd_field: sympy.Integer(d)} if nd_field else {})
+        want = sympy.Integer(1)
+        for k in range(d):
+            want = want * sympy.Symbol("%s_%d_%d" % (kind, k, k), real=True, nonzero=True)
+        problem, got = None, None
+        try:
+            if returns_value:
+                env = {p_["did"]: OPAQUE for p_ in fn.params()}
+                body = fn.body
+                got = pe.stmts(body.get("c", []) if body.get("k") == "CompoundStmt" else [body], env, fn, 0)
+            else:
+                # scalar product accumulated inside the per-point loop: fold the loop body up to the accumulation into the output
+                cand = [v for v in fn.locals().values() if v.get("t") == "double" and any(classify(fn, x) for c in v.get("c", []) if isinstance(c, dict) for x in walk(c))]
+                if len(cand) != 1:
+                    return n
+                v = cand[0]
+                lp = next((a for a in fn.ancestors(v) if a.get("k") == "ForStmt"), None)
+                body = lp.get("body") if lp is not None else fn.body
+                env = {}
+                for st in [c for c in body.get("c", []) if isinstance(c, dict)]:
+                    try:
+                        pe.inplace([st], env, fn, 0)
+                    except NotClosedForm:
+                        continue
+                got = env.get(v["did"])
+        except NotClosedForm as e:
+            problem = "not foldable for num_dimensions = %d: %s" % (d, e)
+        if problem is None and (got is None or got is OPAQUE or sympy.expand(got - want) != 0):
+            problem = "num_dimensions = %d: value is %s, the tensor product is %s" % (d, got, want)
+        n += 1
+        chk.ob(rule_id, fn.key + fn.sig, "tensor-product value for num_dimensions = %d" % d, problem is None, fn.where, problem or "", "prod_k %s_k with every factor addressed by its own dimension" % kind)
     return n
